@@ -305,6 +305,8 @@ def _gen_indep(rng, n, k, mode):
 def g_random(ctx, rng, i):
     """All arities and kinds on random configurations in general position (single objects)."""
     g = G()
+    if i % 6 == 5:
+        jm.line_histories(g, rng, gen, X)
     mode = MODES[i % len(MODES)]
     kind = (i // len(MODES)) % 9
     if kind == 0:
